@@ -481,6 +481,16 @@ func (s *Sim) grant(c *Call, fault string) {
 	switch {
 	case t.Crashed:
 		c.Err = errCrashed
+	case fault == "reject" && c.Verb == "delete" && c.Kind == KPod && hash64(fmt.Sprint(s.Seed), "gone", t.Label(), c.Desc(), fmt.Sprint(c.Idx))%4 == 0:
+		// another way for a deletion to fail: somebody else (eviction clean-up, the pod garbage
+		// collector, the kubelet) removed the pod since it was listed - the call returns NotFound
+		pre, _ := s.Store.Get(c.Kind, c.NS, c.Name)
+		s.Store.Remove(objKey{c.Kind, c.NS, c.Name})
+		c.Err = s.Store.Delete(c.Kind, c.NS, c.Name)
+		c.Pre = pre
+		c.Fault = "gone"
+		t.Faulted = true
+		s.Stats.Faults["gone"]++
 	case fault == "reject":
 		c.Err = s.injectedErr("rejected", c)
 		t.Faulted = true
